@@ -41,3 +41,21 @@ func GoodForwarder(w io.Writer) error {
 	_, err = io.WriteString(w, "y\n")
 	return err
 }
+
+// a retry loop that sends the same bytes again after a partial write
+type badRetry struct{ w io.Writer }
+
+func (r badRetry) Write(p []byte) (n int, err error) {
+	for attempt := 0; ; attempt++ {
+		n, err = r.w.Write(p)
+		if err == nil || attempt == 3 {
+			return n, err
+		}
+	}
+}
+
+func BadRetryForwarder(w io.Writer) error {
+	w = badRetry{w}
+	_, err := io.WriteString(w, "x\n")
+	return err
+}
